@@ -171,8 +171,10 @@ def rule_grid_invariant(ctx):
     agg = {}
     for tsps, tR, tfs, nN, oldN in itertools.product((True, False), (True, False), (True, False), ("notnone", "none"), ("notnone", "none")):
         case = f"sps {'given' if tsps else 'omitted'}, R {'given' if tR else 'omitted'}, fs {'given' if tfs else 'omitted'}, N {'given' if nN == 'notnone' else 'omitted'}, N previously {'set' if oldN == 'notnone' else 'unset'}"
-        ass = {"sps": ("truth", tsps), "R": ("truth", tR), "fs": ("truth", tfs), "N": nN, "self.N": oldN, "kargs": ("truth", False)}
+        giv = lambda t_: ("truth", True) if t_ else None          # an omitted argument is its default, None
+        ass = {"sps": giv(tsps), "R": giv(tR), "fs": giv(tfs), "N": nN, "self.N": oldN, "kargs": ("truth", False)}
         it = Interp(pkg, self_class=GV_CLASS, assumptions=ass)
+        it.domain_sign = _positive_slot_count          # the grid clause is about a slot count in effect: N >= 1
         outs = it.run(call)
         rets = [o for o in outs if o.kind == "return"]
         if len(rets) != 1 or not isinstance(rets[0].value, ObjV):
@@ -320,6 +322,20 @@ def _scalar_like(fi, p):
     if ann and any(k in ann for k in ("ndarray", "signal", "sequence", "list", "Iterable", "eye")):
         return False
     return True
+
+
+def _positive_slot_count(d):
+    """sign of a difference under `N >= 1`: N - c for a number c <= 1 is >= 0"""
+    if isinstance(d, Form):
+        rest = d - S("N")
+        q = rest.rational() if isinstance(rest, Form) else None
+        if q is not None and q >= -1:
+            return "ge0" if q == -1 else 1
+        rest = d + S("N")
+        q = rest.rational() if isinstance(rest, Form) else None
+        if q is not None and q <= 1:
+            return "le0" if q == 1 else -1
+    return None
 
 
 def _is_new_function(fi):
